@@ -57,7 +57,25 @@ func gen(t *rapid.T) Case {
 		// parameters named like the template's own locals (ret, _mock, args, ...)
 		progen.HostileLocals(t, &mod, "testify")
 	}
+	if rapid.IntRange(0, 3).Draw(t, "logging-shape") == 0 {
+		// Println(args ...any): the variadic parameter is the method's only parameter
+		it := &mod.Pkgs[0].Ifaces[0]
+		if it.InstOf == nil {
+			taken := false
+			for _, mt := range it.Methods {
+				taken = taken || mt.Name == "Println"
+			}
+			if !taken {
+				sg := progen.Sig{Params: []progen.Var{{Name: "args", T: progen.B("any")}}, Variadic: true}
+				if rapid.Bool().Draw(t, "logging-result") {
+					sg.Results = []progen.Var{{T: progen.B("int")}}
+				}
+				it.Methods = append(it.Methods, progen.Meth{Name: "Println", Sig: sg})
+			}
+		}
+	}
 	r.GenIfaceData(t, &mod)
+	r.GenIfaceConfigs(t, &mod)
 	replace := rapid.IntRange(0, 3).Draw(t, "replace-type") == 0
 	if replace {
 		// an interface whose parameters and results are exactly the types the rules replace
